@@ -23,7 +23,9 @@
 
 #include <QDir>
 
+#include <atomic>
 #include <clocale>
+#include <thread>
 #include <cstring>
 #include <set>
 
@@ -116,6 +118,20 @@ QString uniqueText(int idx, int bytes, int flavour)
 QJsonObject generate()
 {
     const std::string prop = verif::prop();
+    // Several compressing sinks (one log each, own directory, own thread - per-subsystem logs of one process) rotating at the same moments.
+    // Each sink alone is the sequential subject; what is new is only that the library's code runs in several threads at once.
+    if ((prop == "C08" && chance(3)) || (prop == "C05" && chance(1))) {
+        QJsonObject par;
+        par["threads"] = pick(2, 4);
+        par["rounds"] = pick(3, 8);
+        static const int plens[] = { 9000, 70000, 300000, 1048577, 1600000 };
+        par["len"] = plens[pick(0, prop == "C08" ? 4 : 2)];
+        par["cls"] = pick(1, 2);
+        par["seed"] = pick(1, 1000000);
+        QJsonObject c;
+        c["par"] = par;
+        return c;
+    }
     QJsonObject cfg;
     static const int Ls[] = { 0, 1, 2, 7, 9, 10, 11, 17, 30, 64, 200 };
     int L = Ls[pick(0, 10)];
@@ -636,9 +652,12 @@ const char *plantName(const World &w, int which, std::string &out)
     return out.c_str();
 }
 
+std::string runParallel(const QJsonObject &c);
+
 std::string run(const QJsonObject &c)
 {
     g_prop = verif::prop().empty() ? "ALL" : verif::prop();
+    if (c.contains("par")) return runParallel(c);
     const QJsonObject cfg = c["cfg"].toObject();
     const std::string scratch = envOr("VERIF_SCRATCH", "/dev/shm");
     const std::string dir = scratch + "/rot";
@@ -846,6 +865,77 @@ std::string run(const QJsonObject &c)
     if (g_prop == "C08") nt = w.compress && w.gzFiles > 0 && (w.sawCompressedBig8k || w.multiByte || w.rotations >= 3);
     if (g_prop == "C09") nt = w.daily ? (w.dayChangesWithData > 0 && w.rotations >= 1) : (w.rotations >= 2 && w.restarts > 0);
     noteCase(c, nt && !failed);
+    return "";
+}
+
+// k sinks, k threads, k directories; every write rotates the previous record into a compressed file (L = 1). The threads start each round
+// together (a barrier), so the compressions overlap. Afterwards every directory must satisfy the sequential oracle on its own.
+std::string runParallel(const QJsonObject &c)
+{
+    const QJsonObject par = c["par"].toObject();
+    const int threads = par["threads"].toInt(), rounds = par["rounds"].toInt(), len = par["len"].toInt(), clsId = par["cls"].toInt(), seed = par["seed"].toInt();
+    const std::string scratch = envOr("VERIF_SCRATCH", "/dev/shm");
+    setZone("UTC");
+    const long long now = kEpoch0 + 36000000;
+    verif_clock_enable(true);
+    verif_clock_set(now);
+    std::vector<std::string> dirs;
+    std::vector<std::vector<QString>> texts{ size_t(threads) };
+    texts.resize(size_t(threads));
+    for (int t = 0; t < threads; t++) {
+        const std::string d = scratch + "/rot-par" + std::to_string(t);
+        QDir(QString::fromStdString(d)).removeRecursively();
+        mkdir(d.c_str(), 0755);
+        dirs.push_back(d);
+        for (int r = 0; r < rounds; r++) texts[size_t(t)].push_back(QString("t%1r%2 ").arg(t).arg(r) + expandBig(clsId, len + 13 * t, seed + 97 * t + r));
+    }
+    {   // warm-up on this thread: whatever the library initialises lazily on first use (the CRC table) is initialised before the threads start
+        const std::string d = scratch + "/rot-parwarm";
+        QDir(QString::fromStdString(d)).removeRecursively();
+        mkdir(d.c_str(), 0755);
+        RotatingFileSink warm(QString::fromStdString(d + "/app.log"), 1, -1, RotatingFileSink::Compression);
+        QMessageLogContext ctx("f.cpp", 1, "f", "c");
+        for (int i = 0; i < 2; i++) { LogMessage m(QtInfoMsg, ctx, QStringLiteral("warm")); warm.send(m); warm.flush(); }
+        dirs.push_back(d);
+    }
+    std::atomic<int> arrived { 0 };
+    std::vector<std::thread> th;
+    for (int t = 0; t < threads; t++)
+        th.emplace_back([&, t] {
+            RotatingFileSink sink(QString::fromStdString(dirs[size_t(t)] + "/app.log"), 1, -1, RotatingFileSink::Compression);
+            QMessageLogContext ctx("f.cpp", 1, "f", "c");
+            for (int r = 0; r < rounds; r++) {
+                arrived.fetch_add(1);
+                while (arrived.load() < threads * (r + 1)) std::this_thread::yield(); // all sinks rotate at the same moment
+                LogMessage m(QtInfoMsg, ctx, texts[size_t(t)][size_t(r)]);
+                sink.send(m);
+                sink.flush();
+            }
+        });
+    for (auto &x : th) x.join();
+    std::string failure;
+    long gz = 0;
+    for (int t = 0; t < threads && failure.empty(); t++) {
+        World w(dirs[size_t(t)], "app.log");
+        w.L = 1; w.N = -1; w.startup = false; w.daily = false; w.compress = true; w.gran = 0;
+        for (auto &x : texts[size_t(t)]) w.addRecord(x, now);
+        std::vector<FileSnap> files = snapshot(w);
+        Violation v;
+        if (!check(w, files, true, v)) {
+            bool mine = false;
+            for (const char *tag : { "C05", "C08" }) if (v.tags.find(tag) != std::string::npos && wants(tag)) mine = true;
+            if (mine) failure = "[" + v.tags + "] " + std::to_string(threads) + " compressing sinks (own log, own directory, own thread) rotating at the same time, sink #" + std::to_string(t) + ": " + v.what;
+        }
+        gz += w.gzFiles;
+        if (failure.empty() && w.gzFiles != rounds - 1) failure = "[C05,C08] parallel sinks: sink #" + std::to_string(t) + " left " + std::to_string(w.gzFiles) + " compressed files, " + std::to_string(rounds - 1) + " rotations were due";
+    }
+    for (auto &d : dirs) QDir(QString::fromStdString(d)).removeRecursively();
+    verif_clock_enable(false);
+    if (!failure.empty()) return failure;
+    cls("parallel_sinks_case");
+    count("gz_files_validated", gz);
+    count("gz_files_written_by_sinks_compressing_concurrently", gz);
+    noteCase(c, true);
     return "";
 }
 
